@@ -6,589 +6,18 @@
 package main
 
 import (
-	"bytes"
-	"context"
-	"errors"
 	"fmt"
-	"io"
-	"net/netip"
 	"os"
-	"sort"
-	"strings"
 	"time"
 
-	"github.com/database64128/shadowsocks-go/conn"
-	"github.com/database64128/shadowsocks-go/httpproxy"
-	"github.com/database64128/shadowsocks-go/netio"
-	"github.com/database64128/shadowsocks-go/router"
-	"github.com/database64128/shadowsocks-go/service"
-	"github.com/database64128/shadowsocks-go/socks5"
-	"github.com/database64128/shadowsocks-go/ss2022"
-	"github.com/database64128/shadowsocks-go/ssnone"
-	"github.com/database64128/shadowsocks-go/stats"
-	"go.uber.org/zap"
-
 	"verif/harness"
+	"verif/lib/tcprelay"
 	"verif/shim/vrand"
-	"verif/vnet"
-	"verif/vsched"
 )
-
-type spec struct {
-	server  string // tunnel socks5 ss2022 http ssnone
-	native  bool   // outgoing client supports native initial payload
-	wait    bool   // listener waits for the initial payload
-	payload string // none early late eofData eofNoData
-	dial    string // ok refused unreachable reject
-	order   string // clientFirst targetFirst
-	target  string // ip domain
-	client  string // outgoing client: stub (records the dial), or a real http / socks5 / ss2022 client chained to a harness upstream that runs the real server of that protocol
-}
-
-func (s spec) String() string {
-	cl := s.client
-	if cl == "" {
-		cl = "stub"
-	}
-	return fmt.Sprintf("server=%s;native=%v;wait=%v;payload=%s;dial=%s;order=%s;target=%s;client=%s", s.server, s.native, s.wait, s.payload, s.dial, s.order, s.target, cl)
-}
-
-func parse(p string) spec {
-	var s spec
-	for _, kv := range strings.Split(p, ";") {
-		k, v, _ := strings.Cut(kv, "=")
-		switch k {
-		case "server":
-			s.server = v
-		case "native":
-			s.native = v == "true"
-		case "wait":
-			s.wait = v == "true"
-		case "payload":
-			s.payload = v
-		case "dial":
-			s.dial = v
-		case "order":
-			s.order = v
-		case "target":
-			s.target = v
-		case "client":
-			s.client = v
-		}
-	}
-	return s
-}
-
-// stub outgoing client
-type stubClient struct {
-	native    bool
-	dialErr   error
-	gotAddr   conn.Addr
-	gotPay    []byte
-	dialed    int
-	far       *vnet.Conn
-	near      *vnet.Conn
-	haveConn  bool
-	transport bool // used as the transport under a real outgoing client: the payload is the proxy handshake and is written to the connection
-}
-
-func (c *stubClient) NewStreamDialer() (netio.StreamDialer, netio.StreamDialerInfo) {
-	return c, netio.StreamDialerInfo{Name: "stub", NativeInitialPayload: c.native}
-}
-
-func (c *stubClient) DialStream(ctx context.Context, addr conn.Addr, payload []byte) (netio.Conn, error) {
-	vsched.Point("stub.Dial")
-	c.dialed++
-	c.gotAddr = addr
-	c.gotPay = append([]byte(nil), payload...)
-	if c.dialErr != nil {
-		return nil, c.dialErr
-	}
-	c.near, c.far = vnet.Pair("relay>target", "target", 1<<16)
-	if c.transport && len(payload) > 0 {
-		if _, err := c.near.Write(payload); err != nil {
-			return nil, err
-		}
-	}
-	c.haveConn = true
-	return c.near, nil
-}
-
-// inner client handing out the client end of the client<->relay connection
-type innerClient struct{ c *vnet.Conn }
-
-func (i innerClient) NewStreamDialer() (netio.StreamDialer, netio.StreamDialerInfo) {
-	return i, netio.StreamDialerInfo{}
-}
-func (i innerClient) DialStream(ctx context.Context, addr conn.Addr, payload []byte) (netio.Conn, error) {
-	if len(payload) > 0 {
-		if _, err := i.c.Write(payload); err != nil {
-			return nil, err
-		}
-	}
-	return i.c, nil
-}
-
-type httpFront struct{ inner innerClient }
-
-func (h httpFront) NewStreamDialer() (netio.StreamDialer, netio.StreamDialerInfo) {
-	return h, netio.StreamDialerInfo{}
-}
-func (h httpFront) DialStream(ctx context.Context, addr conn.Addr, payload []byte) (netio.Conn, error) {
-	c, err := httpproxy.ClientConnect(h.inner.c, addr, "")
-	if err != nil {
-		return nil, err
-	}
-	if len(payload) > 0 {
-		if _, err := c.Write(payload); err != nil {
-			return nil, err
-		}
-	}
-	return c, nil
-}
-
-type collector struct {
-	stats.Collector
-	calls []string
-}
-
-func (c *collector) CollectTCPSession(u string, down, up uint64) {
-	c.calls = append(c.calls, fmt.Sprintf("%s/%d/%d", u, down, up))
-}
-
-var (
-	tunnelTarget = conn.AddrFromIPPort(netip.MustParseAddrPort("192.0.2.7:443"))
-	domainTarget = conn.MustAddrFromDomainPort("example.test", 8080)
-	psk          = []byte("0123456789abcdef")
-)
-
-func must[T any](v T, err error) T {
-	if err != nil {
-		panic(err)
-	}
-	return v
-}
-
-func scenario(param string) vsched.Scenario {
-	sp := parse(param)
-	return func() (func(), func(*vsched.Exec) (string, string)) {
-		var upServer netio.StreamServer
-		var (
-			stub                                       = &stubClient{native: sp.native}
-			col                                        = &collector{Collector: stats.NoopCollector{}}
-			clientSent                                 []byte
-			clientGot                                  []byte
-			targetGot                                  []byte
-			targetSent                                 []byte
-			clientEOF                                  bool
-			targetEOF                                  bool
-			dialErrSeen                                error
-			clientErr                                  error
-			targetErr                                  error
-			relayDone                                  bool
-			want                                       conn.Addr
-			cEnd, rEnd                                 *vnet.Conn
-			targetEOFBeforeReply, clientEOFBeforeReply bool
-			upAddr                                     conn.Addr
-			upPay                                      []byte
-			upSeen                                     bool
-		)
-		switch sp.dial {
-		case "refused":
-			stub.dialErr = vnet.ErrRefused
-		case "unreachable":
-			stub.dialErr = errors.New("no route to host")
-		}
-		body := func() {
-			want = tunnelTarget
-			if sp.target == "domain" && sp.server != "tunnel" {
-				want = domainTarget
-			}
-			var server netio.StreamServer
-			cEnd, rEnd = vnet.Pair("client", "relay<client", 1<<16)
-			if sp.payload == "eofDataSameRead" {
-				rEnd.EOFWithData = true // the last bytes arrive together with end-of-stream in one Read
-			}
-			inner := innerClient{cEnd}
-			var front netio.StreamClient
-			switch sp.server {
-			case "tunnel":
-				server = netio.NewStreamProxyServer(tunnelTarget)
-				front = inner
-			case "socks5":
-				server = must((&socks5.StreamServerConfig{EnableTCP: true}).NewStreamServer())
-				front = (&socks5.StreamClientConfig{Name: "f", InnerClient: inner, Addr: tunnelTarget}).NewStreamClient()
-			case "ssnone":
-				server = ssnone.StreamServer{}
-				front = (&ssnone.StreamClientConfig{Name: "f", InnerClient: inner, Addr: tunnelTarget}).NewStreamClient()
-			case "http":
-				server = must((&httpproxy.ServerConfig{}).NewProxyServer())
-				front = httpFront{inner}
-			case "ss2022":
-				server = (&ss2022.StreamServerConfig{UserCipherConfig: must(ss2022.NewUserCipherConfig(psk, false))}).NewStreamServer()
-				front = (&ss2022.StreamClientConfig{Name: "f", InnerClient: inner, Addr: tunnelTarget, CipherConfig: must(ss2022.NewClientCipherConfig(psk, nil, false))}).NewStreamClient()
-			}
-			rcfg := router.Config{DefaultTCPClientName: "stub"}
-			if sp.dial == "reject" {
-				rcfg.DefaultTCPClientName = "reject"
-			}
-			var outgoing netio.StreamClient = stub
-			proxyAddr := conn.AddrFromIPPort(netip.MustParseAddrPort("198.51.100.5:3128"))
-			switch sp.client {
-			case "http":
-				stub.transport = true
-				outgoing = must((&httpproxy.ClientConfig{Name: "up", InnerClient: stub, Addr: proxyAddr}).NewProxyClient())
-				upServer = must((&httpproxy.ServerConfig{}).NewProxyServer())
-			case "socks5":
-				stub.transport = true
-				outgoing = (&socks5.StreamClientConfig{Name: "up", InnerClient: stub, Addr: proxyAddr}).NewStreamClient()
-				upServer = must((&socks5.StreamServerConfig{EnableTCP: true}).NewStreamServer())
-			case "ss2022":
-				stub.transport = true
-				upPSK := []byte("fedcba9876543210")
-				outgoing = (&ss2022.StreamClientConfig{Name: "up", InnerClient: stub, Addr: proxyAddr, CipherConfig: must(ss2022.NewClientCipherConfig(upPSK, nil, false))}).NewStreamClient()
-				upServer = (&ss2022.StreamServerConfig{UserCipherConfig: must(ss2022.NewUserCipherConfig(upPSK, false))}).NewStreamServer()
-			}
-			rt := must(rcfg.Router(zap.NewNop(), nil, nil, map[string]netio.StreamClient{"stub": outgoing}, nil, map[string]int{"s": 0}))
-			relay := service.NewTCPRelay(0, "s", nil, server, col, rt, zap.NewNop())
-			lnc := service.VerifTCPListener(sp.wait, 0, 0)
-			var g vsched.Group
-			g.Go(func() {
-				relay.VerifHandleConn(context.Background(), lnc, rEnd)
-				relayDone = true
-			})
-			// target side
-			g.Go(func() {
-				vsched.PointIf(func() bool { return stub.haveConn || relayDone }, "target.accept")
-				if !stub.haveConn {
-					return
-				}
-				var t netio.Conn = stub.far
-				if upServer != nil {
-					// the upstream proxy: the real server of the outgoing client's protocol
-					req, err := upServer.HandleStream(stub.far, zap.NewNop())
-					if err != nil {
-						targetErr = fmt.Errorf("upstream handshake: %w", err)
-						stub.far.Close()
-						return
-					}
-					upAddr, upPay, upSeen = req.Addr, append([]byte(nil), req.Payload...), true
-					tc, err := req.Proceed()
-					if err != nil {
-						targetErr = fmt.Errorf("upstream proceed: %w", err)
-						return
-					}
-					t = tc
-				}
-				readAll := func() {
-					buf := make([]byte, 64)
-					for {
-						n, err := t.Read(buf)
-						targetGot = append(targetGot, buf[:n]...)
-						if err == io.EOF {
-							targetEOF = true
-							return
-						}
-						if err != nil {
-							targetErr = err
-							return
-						}
-					}
-				}
-				if sp.order == "targetReset" {
-					// read what has arrived so far (at least one read), reply, then abort the connection
-					if len(stub.gotPay) == 0 { // otherwise the first bytes came with the dial
-						buf := make([]byte, 64)
-						n, _ := t.Read(buf)
-						targetGot = append(targetGot, buf[:n]...)
-					}
-					targetSent = append(targetSent, "T-before-reset"...)
-					t.Write([]byte("T-before-reset"))
-					vsched.WaitIdle()
-					stub.far.Reset()
-					return
-				}
-				if sp.order == "clientFirst" {
-					readAll()
-					targetEOFBeforeReply = targetEOF
-					targetSent = append(targetSent, "T-reply-after-client-eof"...)
-					if _, err := t.Write([]byte("T-reply-after-client-eof")); err != nil {
-						targetErr = err
-					}
-					t.CloseWrite()
-				} else {
-					targetSent = append(targetSent, "T-first"...)
-					if _, err := t.Write([]byte("T-first")); err != nil {
-						targetErr = err
-					}
-					t.CloseWrite()
-					readAll()
-				}
-				t.Close()
-			})
-			// client side
-			g.Go(func() {
-				var first []byte
-				switch sp.payload {
-				case "early", "eofData", "eofDataSameRead":
-					first = []byte("C0-initial")
-				}
-				if sp.payload == "late" {
-					// nothing with the request
-				}
-				c, err := front.DialStream(context.Background(), want, first)
-				if err != nil {
-					dialErrSeen = err
-					cEnd.Close()
-					return
-				}
-				clientSent = append(clientSent, first...)
-				readAll := func() {
-					buf := make([]byte, 64)
-					for {
-						n, err := c.Read(buf)
-						clientGot = append(clientGot, buf[:n]...)
-						if err == io.EOF {
-							clientEOF = true
-							return
-						}
-						if err != nil {
-							clientErr = err
-							return
-						}
-					}
-				}
-				write := func(s string) {
-					if _, err := c.Write([]byte(s)); err != nil {
-						clientErr = err
-						return
-					}
-					clientSent = append(clientSent, s...)
-				}
-				if sp.payload == "late" {
-					vsched.Sleep(300 * time.Millisecond)
-					write("C-late")
-				}
-				if sp.order == "targetReset" {
-					// keep the connection open while the target resets, then send more and finish
-					buf := make([]byte, 64)
-					for len(clientGot) < len("T-before-reset") {
-						n, err := c.Read(buf)
-						clientGot = append(clientGot, buf[:n]...)
-						if err != nil {
-							break
-						}
-					}
-					// stay open for writing until the relay reports the end of the downlink
-					write("C2-after-target-reply")
-					readAll()
-					c.CloseWrite()
-					c.Close()
-					return
-				}
-				if sp.order == "clientFirst" || strings.HasPrefix(sp.payload, "eof") {
-					if !strings.HasPrefix(sp.payload, "eof") {
-						write("C1-more")
-					}
-					c.CloseWrite()
-					readAll()
-				} else {
-					readAll()
-					clientEOFBeforeReply = clientEOF
-					write("C-reply-after-target-eof")
-					c.CloseWrite()
-				}
-				c.Close()
-			})
-			g.Wait()
-		}
-		check := func(e *vsched.Exec) (string, string) {
-			obs := fmt.Sprintf("up=%v/%q dialed=%d addr=%v pay=%v tgot=%q cgot=%q ceof=%v teof=%v dialErr=%v cerr=%v terr=%v stats=%v", upAddr, upPay, stub.dialed, stub.gotAddr, len(stub.gotPay), targetGot, clientGot, clientEOF, targetEOF, dialErrSeen, clientErr, targetErr, col.calls)
-			if len(e.Panics) > 0 {
-				return obs, "panic: " + e.Panics[0]
-			}
-			if e.Deadlock || e.HorizonHit {
-				return obs, "deadlock or no termination: " + strings.Join(e.Blocked, " ")
-			}
-			if !relayDone {
-				return obs, "relay handler did not return"
-			}
-			if sp.dial == "reject" {
-				if stub.dialed != 0 {
-					return obs, "router rejection ignored: onward connection dialled"
-				}
-			} else {
-				if stub.dialed != 1 {
-					return obs, fmt.Sprintf("onward connection dialled %d times", stub.dialed)
-				}
-				if sp.client == "" || sp.client == "stub" {
-					if stub.gotAddr.String() != want.String() {
-						return obs, fmt.Sprintf("dialled %v, client asked for %v", stub.gotAddr, want)
-					}
-				} else if sp.dial == "ok" {
-					if !upSeen {
-						return obs, fmt.Sprintf("the upstream proxy never received a valid request from the relay's %s client: %v", sp.client, targetErr)
-					}
-					if upAddr.String() != want.String() {
-						return obs, fmt.Sprintf("the upstream proxy was asked for %v, the client asked for %v", upAddr, want)
-					}
-				}
-			}
-			if sp.dial != "ok" {
-				// failure: nothing may be delivered; the client must see the failure
-				if len(clientGot) != 0 && !(sp.server == "tunnel") {
-					return obs, "client received data although the onward connection failed"
-				}
-				proceeded := sp.wait && sp.native && sp.dial != "reject" && (sp.server != "ss2022" || sp.payload == "none" || sp.payload == "late" || sp.payload == "eofNoData")
-				switch sp.server {
-				case "socks5":
-					var re socks5.ReplyError
-					if !errors.As(dialErrSeen, &re) {
-						if proceeded {
-							break
-						}
-						return obs, fmt.Sprintf("SOCKS5 client did not get a failure reply: %v", dialErrSeen)
-					}
-					wantReply := map[string]byte{"refused": socks5.ReplyConnectionRefused, "reject": socks5.ReplyConnectionNotAllowedByRuleset, "unreachable": socks5.ReplyGeneralSocksServerFailure}[sp.dial]
-					if byte(re) != wantReply {
-						return obs, fmt.Sprintf("SOCKS5 failure reply %#x, want %#x for %s", byte(re), wantReply, sp.dial)
-					}
-				case "http":
-					if dialErrSeen == nil && !proceeded {
-						return obs, "HTTP CONNECT client saw success although the onward connection failed"
-					}
-				}
-				if len(col.calls) != 0 {
-					return obs, "statistics recorded for a connection that was never established"
-				}
-				return obs, ""
-			}
-			if dialErrSeen != nil {
-				return obs, "client handshake failed although the onward connection succeeded: " + dialErrSeen.Error()
-			}
-			if sp.order == "targetReset" {
-				// the onward connection was aborted by the destination: the only demands are that the relay
-				// ends, closes both connections, and charges exactly the bytes it delivered each way
-				up := int64(len(stub.gotPay)) + stub.near.TotalWritten()
-				down := rEnd.TotalWritten()
-				if sp.server == "ss2022" || sp.server == "http" || sp.server == "socks5" {
-					down = -1 // framing/handshake bytes are part of what the relay wrote to the client; checked via the client's view instead
-				}
-				if !bytes.HasPrefix(targetSent, clientGot) {
-					return obs, "client received bytes the target never sent"
-				}
-				want := fmt.Sprintf("/%d/%d", len(clientGot), up)
-				if down >= 0 && down != int64(len(clientGot)) {
-					want = fmt.Sprintf("/%d/%d", down, up)
-				}
-				if len(col.calls) != 1 || col.calls[0] != want {
-					return obs, fmt.Sprintf("statistics %v, bytes actually delivered before the destination reset the connection (user/down/up) %s", col.calls, want)
-				}
-				if !rEnd.IsClosed() || !stub.near.IsClosed() {
-					return obs, "relay returned without closing both connections"
-				}
-				return obs, ""
-			}
-			// delivered bytes
-			first := stub.gotPay
-			if upServer != nil {
-				first = upPay
-			}
-			all := append(append([]byte(nil), first...), targetGot...)
-			if !bytes.Equal(all, clientSent) {
-				if bytes.HasPrefix(clientSent, all) {
-					return obs, "uplink bytes lost: the target received only a strict prefix of what the client sent"
-				}
-				return obs, "uplink bytes differ from what the client sent (duplicated, reordered or foreign)"
-			}
-			if !bytes.Equal(clientGot, targetSent) {
-				if bytes.HasPrefix(targetSent, clientGot) {
-					return obs, "downlink bytes lost: the client received only a strict prefix of what the target sent"
-				}
-				return obs, "downlink bytes differ from what the target sent"
-			}
-			if !clientEOF || !targetEOF {
-				return obs, fmt.Sprintf("end-of-stream not mirrored: client saw EOF=%v, target saw EOF=%v", clientEOF, targetEOF)
-			}
-			if sp.order == "clientFirst" && !targetEOFBeforeReply {
-				return obs, "target did not see the client's end-of-stream while the reverse direction was still open"
-			}
-			if sp.order == "targetFirst" && !strings.HasPrefix(sp.payload, "eof") && !clientEOFBeforeReply {
-				return obs, "client did not see the target's end-of-stream while the reverse direction was still open"
-			}
-			wantStats := fmt.Sprintf("/%d/%d", len(targetSent), len(clientSent))
-			if len(col.calls) != 1 || col.calls[0] != wantStats {
-				return obs, fmt.Sprintf("statistics %v, bytes actually delivered (user/down/up) %s", col.calls, wantStats)
-			}
-			if !rEnd.IsClosed() || (stub.near != nil && !stub.near.IsClosed()) {
-				return obs, "relay returned without closing both connections"
-			}
-			return obs, ""
-		}
-		return body, check
-	}
-}
-
-func family(c *harness.Check) []string {
-	servers := []string{"tunnel", "socks5", "ss2022", "http", "ssnone"}
-	var out []string
-	for _, sv := range servers {
-		for _, native := range []bool{false, true} {
-			for _, wait := range []bool{false, true} {
-				if wait && !native {
-					continue // the wait only happens when the client has native support
-				}
-				if wait && sv == "ss2022" {
-					// service.ServerConfig sets waitForInitialPayload = !serverNativeInitialPayload && !disabled,
-					// and the SS2022 server has native initial payload: the service never waits in front of it.
-					continue
-				}
-				for _, pay := range []string{"none", "early", "late", "eofData", "eofDataSameRead", "eofNoData"} {
-					for _, order := range []string{"clientFirst", "targetFirst"} {
-						if strings.HasPrefix(pay, "eof") && order == "targetFirst" {
-							continue
-						}
-						if pay == "none" && order == "clientFirst" && !c.Thorough() && sv != "tunnel" {
-							// covered by early/clientFirst except for the wait timer; keep for tunnel
-						}
-						out = append(out, spec{sv, native, wait, pay, "ok", order, "ip", ""}.String())
-					}
-				}
-				out = append(out, spec{sv, native, wait, "early", "ok", "targetReset", "ip", ""}.String())
-				for _, d := range []string{"refused", "unreachable", "reject"} {
-					out = append(out, spec{sv, native, wait, "early", d, "clientFirst", "ip", ""}.String())
-					if wait {
-						out = append(out, spec{sv, native, wait, "none", d, "clientFirst", "ip", ""}.String())
-					}
-				}
-			}
-		}
-		if sv != "tunnel" {
-			out = append(out, spec{sv, true, true, "early", "ok", "clientFirst", "domain", ""}.String())
-		}
-		// chained proxies: a real outgoing client talking to the real server of its protocol
-		if sv == "tunnel" || sv == "socks5" || c.Thorough() {
-			for _, cl := range []string{"http", "socks5", "ss2022"} {
-				native := cl == "ss2022"
-				for _, pay := range []string{"none", "early", "eofData"} {
-					for _, order := range []string{"clientFirst", "targetFirst"} {
-						if pay == "eofData" && order == "targetFirst" {
-							continue
-						}
-						out = append(out, spec{sv, native, native && sv != "ss2022", pay, "ok", order, "ip", cl}.String())
-					}
-				}
-				out = append(out, spec{sv, native, false, "early", "ok", "clientFirst", "domain", cl}.String())
-			}
-		}
-	}
-	sort.Strings(out)
-	return out
-}
 
 func main() {
 	vrand.Hook = func(n int) int { return 0 }
-	harness.Register("relay", scenario)
+	harness.Register("relay", tcprelay.Scenario)
 	harness.WorkerMain()
 	c := harness.Start("C13")
 	if c.Replay != "" {
@@ -598,19 +27,19 @@ func main() {
 		os.Exit(0)
 	}
 	c.Rule = "one case = one complete interleaving (client thread, relay handler, its copy goroutine, target thread, initial-payload timer) of a scenario {front protocol, outgoing client native-payload support, wait-for-initial-payload, payload timing, dial result, closing order, target kind}; distinct = distinct observation record"
-	c.Assumptions = []string{"handleConn's *net.TCPConn parameter is widened to netio.Conn by the overlay (its body only uses netio.Conn methods)", "in-memory connections with 64 KiB buffers, virtual clock", "outgoing client is a stub that records the dial; chaining to real clients is covered by C01/C07"}
+	c.Assumptions = []string{"handleConn's *net.TCPConn parameter is widened to netio.Conn by the overlay (its body only uses netio.Conn methods)", "in-memory connections with 64 KiB buffers, virtual clock", "outgoing client: a stub that records the dial, or a real http / socks5 / ss2022 client whose transport is the stub and whose far end runs the real server of that protocol"}
 	// signature = front protocol + wait/native flags + failure class (not the payload timing or closing order)
 	c.SigOf = func(_, param, msg string) string {
-		sp := parse(param)
-		return fmt.Sprintf("relay[server=%s,wait=%v,native=%v,dial=%s]: %s", sp.server, sp.wait, sp.native, sp.dial, msg)
+		sp := tcprelay.Parse(param)
+		return fmt.Sprintf("relay[server=%s,wait=%v,native=%v,dial=%s]: %s", sp.Server, sp.Wait, sp.Native, sp.Dial, msg)
 	}
-	params := family(c)
+	params := tcprelay.Family(c.Thorough())
 	bound := harness.Pick(c, 2, 3)
 	for i, r := range harness.ExploreBatch("relay", params, bound, harness.Pick(c, 20*time.Second, 2*time.Minute), true) {
 		if i%19 == 0 {
 			c.Sample(map[string]any{"scenario": r.Param, "executions": r.Stats.Execs, "observations": len(r.Stats.Observations), "bound": r.Stats.BoundCompleted})
 		}
-		c.AddExploration("relay", r.Param, r.Stats, harness.Confirm(scenario(r.Param)))
+		c.AddExploration("relay", r.Param, r.Stats, harness.Confirm(tcprelay.Scenario(r.Param)))
 	}
 	c.Extra["scenarios"] = len(params)
 	c.Finish()
